@@ -611,12 +611,207 @@ Proof.
          inversion Hst; subst st'; cbn [fst snd]; split; [|apply keys_incl_set];
          apply good_set_plain; try assumption; apply fok_list; [exact Hlc|];
          apply Forall_app; split; [exact Hcur|apply (nums_eok _ s); assumption]);
-    try (match type of Hst with context [single_value dm (fkind_ fd) GAbsent ?ff] =>
+    try (match type of Hst with context [single_value _ _ GAbsent ?ff] =>
            destruct (list_case fd ff _ Hwf Hleg
                 (fun t num b Hk E => Hndm t num b Hk E ltac:(intros; discriminate)) Hlen eq_refl)
              as [E|(x & E & Hx)]; rewrite E in Hst; [discriminate Hst|] end;
          inversion Hst; subst st'; cbn [fst snd]; split; [|apply keys_incl_set];
          apply good_set_plain; try assumption; apply fok_list; [exact Hlc|];
          apply Forall_app; split; [exact Hcur|constructor; [exact Hx|constructor]]).
-  - Show.
-Abort.
+  - (* oneof member *)
+    unfold ref_step, rawf in Hst. rewrite Hf, Hc in Hst. cbv zeta in Hst.
+    destruct (single_case fd f fs _ Hwf Hleg
+                (fun t num b Hk E => Hndm t num b Hk E ltac:(intros; discriminate)) Hlen (Hfr eq_refl) eq_refl)
+      as [E|(v & E & Hv)]; rewrite E in Hst; [discriminate Hst|].
+    inversion Hst; subst st'. cbn [fst snd]. split.
+    + apply good_set_oneof; try assumption. apply fok_single; [rewrite Hc; reflexivity|exact Hv].
+    + intros k Hk. apply keys_set in Hk. destruct Hk as [Hk|Hk]; [left; exact Hk|right].
+      eapply keys_clear_group. exact Hk.
+  - (* map entry *)
+    destruct f as [num v|num b|num b|num b]; try discriminate Hleg. cbn [rnum] in Hn, Hf. subst num.
+    unfold rawf in Hst. rewrite (ref_step_map dm md fd kk vk fs unk b _ Hf Hc) in Hst.
+    unfold entry_legal in Hleg. destruct (canonical_fields b) as [efs|] eqn:Hcf; [|discriminate Hleg].
+    apply andb_prop in Hleg. destruct Hleg as [Hleg _]. rewrite forallb_forall in Hleg.
+    destruct (canonical_fields_spec b efs Hcf) as (Hb & Hwfs & Hpa).
+    rewrite (Hpa (S (length b)) ltac:(lia)) in Hst. rewrite !pick_pick_from in Hst.
+    pose proof (field_ok_card sc md fd (mdesc_field_ok sc md fd Hmd Hfd)) as Hfo. rewrite Hc in Hfo.
+    destruct Hfo as [Hkk _].
+    pose proof (renc_len_lt (fnum fd) b) as Hbl.
+    assert (Hp1 : pick_from 1 kk (zero_of kk) (map rawf efs) = None \/
+                  exists k, pick_from 1 kk (zero_of kk) (map rawf efs) = Some k /\ eok kk k).
+    { apply (pick_legal kk 1 efs (zero_of kk) _ Hwfs); [|apply eok_zero| |reflexivity].
+      - apply Forall_forall. intros e He H1. specialize (Hleg e He). cbv beta in Hleg.
+        rewrite H1 in Hleg. exact Hleg.
+      - intros t Ht. subst kk. discriminate Hkk. }
+    assert (Hp2 : pick_from 2 vk (zero_of vk) (map rawf efs) = None \/
+                  exists v, pick_from 2 vk (zero_of vk) (map rawf efs) = Some v /\ eok vk v).
+    { apply (pick_legal vk 2 efs (zero_of vk) _ Hwfs); [|apply eok_zero| |reflexivity].
+      - apply Forall_forall. intros e He H2. specialize (Hleg e He). cbv beta in Hleg.
+        rewrite H2 in Hleg. exact Hleg.
+      - intros t Ht. subst vk. apply andb_prop in Hnd. destruct Hnd as [Hcnt Hall].
+        apply Nat.leb_le in Hcnt. split; [exact Hcnt|]. split; [intros _; reflexivity|].
+        rewrite forallb_forall in Hall. apply Forall_forall. intros e He vb Hvb. subst e. split.
+        + exact (Hall _ He).
+        + pose proof (renc_in_len _ _ He) as H1. rewrite <- Hb in H1. pose proof (renc_len_lt 2 vb). lia. }
+    destruct Hp1 as [E1|(k & E1 & Hk)]; rewrite E1 in Hst; [discriminate Hst|].
+    destruct Hp2 as [E2|(v & E2 & Hv)]; rewrite E2 in Hst; [discriminate Hst|].
+    inversion Hst; subst st'. cbn [fst snd]. split; [|apply keys_incl_set].
+    destruct (cur_map_ok md fs unk fd kk vk HG Hfd Hc) as [Hcm Hkd].
+    apply good_set_plain; try assumption; [|unfold is_oneof_member; rewrite Hc; reflexivity].
+    apply (fok_map fd kk vk _ Hc).
+    + apply map_set_entries; [split; [apply Hk|exact Hv]| |exact Hcm].
+      intros k0 v0 [Ha _]. split; [exact Ha|exact Hv].
+    + apply map_set_keys. exact Hkd.
+Qed.
+
+(* ---------- the whole fold ---------- *)
+Definition smsg (md : mdesc) (n : N) : Prop :=
+  exists fd t, find_field md n = Some fd /\ single_card (fcard_ fd) = true /\ fkind_ fd = FMsg t.
+
+Lemma count_in n l : In n (map rnum l) -> (1 <= count_num n l)%nat.
+Proof.
+  induction l as [|e l IH]; cbn [map In]; intros H; [destruct H|]. rewrite count_num_cons.
+  destruct H as [H|H]; [rewrite H, N.eqb_refl; lia|]. specialize (IH H). lia.
+Qed.
+
+Lemma fold_good md : mdesc_ok sc md = true -> forall flds fs unk st',
+  Good md fs unk ->
+  Forall (fun f => rfield_wfb f = true /\ field_legal sc lg md f = true /\ nd_field md f = true /\
+                   (length (renc f) <= bound)%nat) flds ->
+  (forall n, smsg md n -> (count_num n flds <= 1)%nat) ->
+  (forall n, smsg md n -> In n (map rnum flds) -> ~ In n (map fst fs)) ->
+  ref_fold dm md (fs, unk) (map rawf flds) = Some st' -> Good md (fst st') (snd st').
+Proof.
+  intros Hmd. induction flds as [|f flds IH]; intros fs unk st' HG Hall Honce Hfresh Hfold.
+  - cbn [map] in Hfold. rewrite ref_fold_nil in Hfold. inversion Hfold. exact HG.
+  - cbn [map] in Hfold. rewrite ref_fold_cons in Hfold.
+    inversion Hall as [|f1 l1 (Hwf & Hleg & Hnd & Hlen) Hall']; subst f1 l1.
+    destruct (ref_step dm md (fs, unk) (rawf f)) as [[fs1 unk1]|] eqn:Es; [|discriminate Hfold].
+    assert (Hfr : forall fd t, find_field md (rnum f) = Some fd -> single_card (fcard_ fd) = true ->
+                    fkind_ fd = FMsg t -> lookup_field (rnum f) fs = GAbsent).
+    { intros fd t Hf Hs Hk. apply lookup_notin. apply Hfresh; [exists fd, t; auto|left; reflexivity]. }
+    pose proof (step_good md f fs unk Hmd HG Hwf Hleg Hnd Hlen Hfr) as Hstep. rewrite Es in Hstep.
+    destruct (Hstep (fs1, unk1) eq_refl) as [HG1 Hk1]. cbn [fst snd] in HG1, Hk1.
+    apply (IH fs1 unk1 st' HG1 Hall'); [| |exact Hfold].
+    + intros n Hn. specialize (Honce n Hn). rewrite count_num_cons in Honce. lia.
+    + intros n Hn Hin Hin1. destruct (Hk1 n Hin1) as [E|E].
+      * subst n. specialize (Honce _ Hn). rewrite count_num_cons, N.eqb_refl in Honce.
+        pose proof (count_in _ _ Hin). lia.
+      * apply (Hfresh n Hn); [right; exact Hin|exact E].
+Qed.
+
+Definition nd_body (md : mdesc) (p : list byte) : bool :=
+  match canonical_fields p with
+  | None => false
+  | Some flds => singular_msgs_once md flds && forallb (nd_field md) flds
+  end.
+
+Lemma msg_good md p rflds fs u : mdesc_ok sc md = true ->
+  msg_legal sc lg md p = true -> nd_body md p = true -> (length p <= bound)%nat ->
+  ref_parse_all (S (length p)) p = Some rflds -> ref_fold dm md ([], []) rflds = Some (fs, u) ->
+  Good md fs u.
+Proof.
+  intros Hmd Hleg Hnd Hlen Hpar Hfold. unfold msg_legal in Hleg. unfold nd_body in Hnd.
+  destruct (canonical_fields p) as [flds|] eqn:Hcf; [|discriminate Hleg].
+  destruct (canonical_fields_spec p flds Hcf) as (Hp & Hwfs & Hpa).
+  rewrite (Hpa (S (length p)) ltac:(lia)) in Hpar. inversion Hpar; subst rflds. clear Hpar.
+  apply andb_prop in Hnd. destruct Hnd as [Honce Hnd]. rewrite forallb_forall in Hleg, Hnd.
+  rewrite Forall_forall in Hwfs.
+  apply (fold_good md Hmd flds [] [] (fs, u) (good_nil md)); [| | |exact Hfold].
+  - apply Forall_forall. intros f Hf. split; [apply Hwfs; exact Hf|]. split; [apply Hleg; exact Hf|].
+    split; [apply Hnd; exact Hf|]. pose proof (renc_in_len _ _ Hf). rewrite <- Hp in H. lia.
+  - intros n (fd & t & Hf & Hs & Hk). destruct (find_field_some md _ _ Hf) as [Hfd Hn].
+    unfold singular_msgs_once in Honce. rewrite forallb_forall in Honce. specialize (Honce fd Hfd).
+    cbv beta in Honce. rewrite Hk, Hn in Honce.
+    destruct (fcard_ fd); try discriminate Hs; apply Nat.leb_le in Honce; exact Honce.
+  - intros n _ _ [].
+Qed.
+
+Lemma good_value ty fs u : Good (nth ty sc empty_md) fs u ->
+  VOK ty (GMsg fs u) = true /\ UOK ty (GMsg fs u) = true.
+Proof.
+  set (md := nth ty sc empty_md). intros [G1 G2 G3 G4 (ufs & Hu & Hw & Hn)].
+  pose proof (schema_nth_ok sc ty Hsc) as Hmd. fold md in Hmd. destruct (mdesc_NoDup md Hmd) as [Hnd1 Hnd2].
+  assert (Hvals : forall n x, In (n, x) fs -> exists fd, find_field md n = Some fd /\ fok fd x).
+  { intros n x Hx. destruct (find_field md n) as [fd|] eqn:Hf.
+    - exists fd. split; [reflexivity|]. destruct (find_field_some md _ _ Hf) as [Hfd Hnn].
+      pose proof (G3 fd Hfd) as Hv. rewrite Hnn, (uv_lookup_of_in n x fs G1 Hx) in Hv. exact Hv.
+    - exfalso. apply (G2 n); [|exact Hf]. apply in_map_iff. exists (n, x). split; [reflexivity|exact Hx]. }
+  split.
+  - unfold VOK. rewrite value_ok_S. fold md. apply andb_true_intro. split.
+    + unfold msg_value_ok. rewrite (uv_NoDup_nodupb _ G1), (uv_groups_ok md fs Hnd2 G4), andb_true_r. cbn [andb].
+      apply forallb_forall. intros [n x] Hx. destruct (Hvals n x Hx) as (fd & Hf & Hv & _). rewrite Hf.
+      rewrite (uv_fvo_ext _ VOK); [exact Hv|]. intros ty0 y Hy. unfold VOK. apply value_ok_fuel; [|lia].
+      pose proof (fdepth_In n x fs Hx). rewrite GenPFuel.vdepth_GMsg. lia.
+    + apply uv_bytes_ok_forallb. rewrite Hu. apply uv_concat_ok. exact Hw.
+  - unfold UOK, unknowns_ok. rewrite all_msgs_S. fold md. apply andb_true_intro. split.
+    + unfold unknown_ok_at.
+      assert (Hpa : ref_parse_all (S (length u)) u = Some (map (fun x => (x, renc x)) ufs ++ [])).
+      { rewrite Hu. rewrite <- (app_nil_r (concat (map renc ufs))).
+        apply ref_parse_all_renc; [|reflexivity|lia].
+        apply Forall_forall. intros f Hf. rewrite Forall_forall in Hw. apply rfield_wfb_wf. apply Hw. exact Hf. }
+      rewrite Hpa, app_nil_r. apply forallb_forall. intros [f raw] Hf. apply in_map_iff in Hf.
+      destruct Hf as (f' & He & Hf). inversion He; subst f' raw. rewrite Forall_forall in Hn, Hw.
+      rewrite (Hn f Hf). pose proof (Hw f Hf) as Hwf. unfold rfield_wfb in Hwf.
+      apply andb_prop in Hwf. destruct Hwf as [Hwf _]. exact Hwf.
+    + apply forallb_forall. intros fd Hfd. destruct (G3 fd Hfd) as [_ Hs].
+      rewrite (uv_fsub_ext _ (sub_of UOK)); [exact Hs|]. intros k y Hy. unfold sub_of. destruct k; try reflexivity.
+      unfold UOK, unknowns_ok. pose proof (vdepth_lookup (fnum fd) fs u). apply all_msgs_fuel; lia.
+Qed.
+End Msg.
+
+(* ---------- induction on the length of the encoding ---------- *)
+Lemma uv_no_dup_S sc f ty p :
+  no_dup_msgs sc (S f) ty p = nd_body (no_dup_msgs sc f) (nth ty sc empty_md) p.
+Proof. reflexivity. Qed.
+
+Lemma uv_decode_S sc f ty prev p :
+  ref_decode_into sc (S f) ty prev p =
+  match ref_parse_all (S (length p)) p with
+  | None => None
+  | Some flds =>
+      match ref_fold (ref_decode_into sc f) (nth ty sc empty_md)
+                     (match prev with GMsg fs u => (fs, u) | _ => ([], []) end) flds with
+      | Some (fs, u) => Some (GMsg fs u)
+      | None => None
+      end
+  end.
+Proof. reflexivity. Qed.
+
+Lemma uv_dec0 sc f ty b : ref_decode_into sc f ty (GMsg [] []) b = ref_decode_into sc f ty GAbsent b.
+Proof. destruct f; reflexivity. Qed.
+
+Lemma legal_value_gen sc : schema_ok sc = true ->
+  forall n p ty fl fd fr v, (length p < n)%nat -> (length p < fl)%nat -> (length p < fd)%nat -> (length p < fr)%nat ->
+  legal_msg sc fl ty p = true -> no_dup_msgs sc fd ty p = true ->
+  ref_decode_into sc fr ty GAbsent p = Some v ->
+  VOK sc ty v = true /\ UOK sc ty v = true.
+Proof.
+  intros Hsc. induction n as [|n IH]; intros p ty fl fd fr v Hn Hl Hd Hr Hleg Hnd Hdec; [lia|].
+  destruct fl as [|fl]; [lia|]. destruct fd as [|fd]; [lia|]. destruct fr as [|fr]; [lia|].
+  cbn [legal_msg] in Hleg. rewrite uv_no_dup_S in Hnd. rewrite uv_decode_S in Hdec.
+  destruct (ref_parse_all (S (length p)) p) as [rflds|] eqn:Hpa; [|discriminate Hdec].
+  destruct (ref_fold (ref_decode_into sc fr) (nth ty sc empty_md) ([], []) rflds) as [[fs u]|] eqn:Hfold;
+    [|discriminate Hdec].
+  inversion Hdec; subst v.
+  assert (Hnest : forall ty0 b x, (length b < length p)%nat -> legal_msg sc fl ty0 b = true ->
+            no_dup_msgs sc fd ty0 b = true -> ref_decode_into sc fr ty0 GAbsent b = Some x ->
+            VOK sc ty0 x = true /\ UOK sc ty0 x = true).
+  { intros ty0 b x Hb Hlg Hndb Hdm. apply (IH b ty0 fl fd fr x); try assumption; lia. }
+  pose proof (uv_dec0 sc fr) as Hd0.
+  apply (good_value sc Hsc _ _ _ _ Hnest Hd0 ty fs u).
+  apply (msg_good sc Hsc _ _ _ _ Hnest Hd0 (nth ty sc empty_md) p rflds fs u); try assumption.
+  - apply schema_nth_ok. exact Hsc.
+  - lia.
+Qed.
+
+Theorem legal_value_ok : forall sc ty p v,
+  schema_ok sc = true -> legal_msg sc (S (length p)) ty p = true -> no_dup_msgs sc (S (length p)) ty p = true ->
+  ref_decode sc (S (length p)) ty p = Some v ->
+  value_ok sc (S (vdepth v)) ty v = true /\ unknowns_ok sc (S (vdepth v)) ty v = true.
+Proof.
+  intros sc ty p v Hsc Hleg Hnd Hdec. unfold ref_decode in Hdec.
+  exact (legal_value_gen sc Hsc (S (length p)) p ty (S (length p)) (S (length p)) (S (length p)) v ltac:(lia) ltac:(lia) ltac:(lia) ltac:(lia) Hleg Hnd Hdec).
+Qed.
+
+Print Assumptions legal_value_ok.
